@@ -296,6 +296,8 @@ def r7_register_keeps_tables(ck, cx, rule='R7'):
                     whole = (U(ev.node.args[0].keys[0]), ev.node.args[0].values[0])
                 elif ev.kind == 'assign' and isinstance(ev.a, ast.Subscript) and isinstance(ev.a.value, ast.Subscript) and U(ev.a.value.value).endswith('__sub_lookup'):
                     n += 1      # one entry of the inner table: the intended form
+                elif ev.kind == 'call' and isinstance(ev.node.func, ast.Attribute) and ev.node.func.attr == 'setdefault' and U(ev.node.func.value).endswith('__sub_lookup'):
+                    n += 1      # setdefault never replaces an existing inner table
                 if whole is None:
                     continue
                 n += 1
@@ -404,4 +406,6 @@ def run(ck, tier):
     ck.guard(r5_no_shared_default_state, ck, cx, 'R5')
     ck.assume('the arithmetic inside pack_bitstring / unpack_bitstring (LSB-first packing) and struct itself are in the trusted base; the rules prove every bit field goes through them')
     ck.assume('value ranges (e.g. addresses above 65535 raising struct.error) are not decided')
+    from .. import ownership as _own
+    ck.guard(_own.rule_instance_owned, ck, cx, 'R10', _own.DECODERS, 'a function registered on one decoder is decoded by every decoder in the process: a spec-conformant PDU no longer decodes to the message type of the specification', 4)
     return cx.idx
